@@ -260,6 +260,11 @@ pub fn parent_run(
                             None => break,
                         }
                     }
+                    // a worker that stopped with the machinery exit code found a defect of the harness, not of the code
+                    // under test: pass that on as what it is (its message is on stderr)
+                    if matches!(&status, Ok(s) if s.code() == Some(2)) {
+                        machinery_fail(&format!("worker {k} reported a machinery failure (see its MACHINERY-FAILURE line above)"));
+                    }
                     // the worker died: which case was it running?
                     deaths += 1;
                     let pos = std::fs::read_to_string(&cur).ok().and_then(|s| s.trim().parse::<usize>().ok());
